@@ -97,7 +97,8 @@ var helperCommands = map[string][2]string{
 	"redis.nextSetArguments":            {"SETNX", ""},
 }
 
-func recipeFor(p *Program, g *Gen) *replayRecipe {
+func recipeFor(p *Program, o *Obligation) *replayRecipe {
+	g := o.Gen
 	fn := g.Fn
 	key := FuncKey(fn)
 	if fn.Pkg != nil && fn.Pkg.Pkg.Name() == "proto" {
@@ -113,6 +114,12 @@ func recipeFor(p *Program, g *Gen) *replayRecipe {
 			return &replayRecipe{kind: "request", pkgDir: "./redis", tmpl: "redis_replay_test.go.txt", command: "", msgBytes: true}
 		}
 		return nil
+	}
+	if fn.Pkg != nil && fn.Pkg.Pkg.Name() == "glob" {
+		return &replayRecipe{kind: "glob", pkgDir: "./redis/glob", tmpl: "glob_replay_test.go.txt"}
+	}
+	if key == "redis.nextScanArgument" && strings.Contains(o.Name, "C17") {
+		return &replayRecipe{kind: "glob", pkgDir: "./redis", tmpl: "globscan_replay_test.go.txt"}
 	}
 	if fn.Pkg != nil && fn.Pkg.Pkg.Name() == "auth" {
 		return &replayRecipe{kind: "request", pkgDir: "./redis", tmpl: "redis_replay_test.go.txt", command: "PING", password: true}
@@ -614,7 +621,7 @@ func TryReplay(p *Program, o *Obligation, opts SolveOpts) map[string]any {
 	if o.Gen == nil {
 		return res
 	}
-	r := recipeFor(p, o.Gen)
+	r := recipeFor(p, o)
 	if r == nil {
 		res["reason"] = "no replay recipe for this unit (obligation reported with the solver output only)"
 		return res
@@ -636,6 +643,9 @@ func TryReplay(p *Program, o *Obligation, opts SolveOpts) map[string]any {
 			sp["password"] = "s3cret"
 		}
 		spec = sp
+	case "glob":
+		info = map[string]any{"portfolio": "all patterns up to length 3 and keys up to length 4 over the property's alphabet (no solver model: the obligation is quantified)"}
+		spec = map[string]any{}
 	case "stream":
 		st, inf, ok := buildStream(o, r)
 		info = inf
@@ -667,6 +677,14 @@ func TryReplay(p *Program, o *Obligation, opts SolveOpts) map[string]any {
 			res["result"] = "reproduced"
 			res["observed"] = fmt.Sprintf("%s on the real code (%v) %v", oc, outcomeKey(m), m["panic"])
 			return res
+		}
+		if fmt.Sprint(m["scenario"]) == "glob" || fmt.Sprint(m["scenario"]) == "scan-match" {
+			if oc == "mismatch" || oc == "compile-error" {
+				o.Reproduced = true
+				res["result"] = "reproduced"
+				res["observed"] = fmt.Sprintf("%v on the real code: pattern %q key %q matched=%v, a Redis glob gives %v %v", oc, m["pattern"], m["key"], m["got"], m["want"], m["err"])
+				return res
+			}
 		}
 		if ne, ok := m["nil_element"].(bool); ok && ne {
 			o.Reproduced = true
